@@ -149,13 +149,30 @@ def worker(job):
                 st.inc("unexecutable_command_runs")
             log = os.path.join(sb, "rec.log")
             env = common.clean_env({"VERIF_REC_LOG": log, "VERIF_REC_FN": "outcome8"})
+            toks_run = toks
+            if shape in ("plain", "after-test", "negated", "in-or", "twice", "after-type", "then-plus") and rng.random() < 0.15:
+                # the command given as a bare name and found through PATH - behind an earlier PATH directory that holds something
+                # of the same name which cannot be executed (a file without execute bit, a directory): the search goes on, as execvp's does
+                pd = os.path.join(base, "verif-path-%d" % t)
+                os.makedirs(os.path.join(pd, "d1"))
+                os.makedirs(os.path.join(pd, "d2"))
+                if rng.random() < 0.6:
+                    with open(os.path.join(pd, "d1", "verif-rec"), "w") as f_:
+                        f_.write("#!/bin/sh\nexit 0\n")
+                    os.chmod(os.path.join(pd, "d1", "verif-rec"), 0o644)
+                else:
+                    os.mkdir(os.path.join(pd, "d1", "verif-rec"))
+                os.symlink(common.REC, os.path.join(pd, "d2", "verif-rec"))
+                env["PATH"] = "%s:%s:%s" % (os.path.join(pd, "d1"), os.path.join(pd, "d2"), env.get("PATH", "/usr/bin:/bin"))
+                toks_run = [("verif-rec" if x == common.REC else x) for x in toks]
+                st.inc("runs_with_a_bare_command_behind_an_unexecutable_namesake")
             if root.startswith("-") and root != "-":
                 lf = os.path.join(base, "roots-%d.lst" % t)
                 with open(lf, "wb") as f_:
                     f_.write(root.encode() + b"\0")
-                rc, out, err, to = common.run_cmd([common.FIND, "-files0-from", lf] + toks, cwd=sb, env=env, timeout=120)
+                rc, out, err, to = common.run_cmd([common.FIND, "-files0-from", lf] + toks_run, cwd=sb, env=env, timeout=120)
             else:
-                rc, out, err, to = common.run_cmd([common.FIND, root] + toks, cwd=sb, env=env, timeout=120)
+                rc, out, err, to = common.run_cmd([common.FIND, root] + toks_run, cwd=sb, env=env, timeout=120)
             st.inc("evaluations")
             st.inc("shape:" + shape)
             st.inc("kind:" + kind)
